@@ -57,6 +57,12 @@ def gen_inputs(rng):
             else:
                 g.budget = 4
                 items.append(g.stmt(top))
+        if r.chance(0.2) and g.assignable(top):
+            # a bare toplevel block after the other items of this input
+            v = r.choice(g.assignable(top))
+            items.append(f"{{ {v} = ({v} + {r.randint(1, 9)}) % 1000 {g.print_stmt(top)} }}")
+        if r.chance(0.15):
+            items.insert(r.randint(0, len(items)), r.choice(["// caf\u00e9 \u2192 \U0001f600", "// plain comment"]))
         if r.chance(0.3):
             # a passing test definition: running it must not disturb the toplevel state
             a = r.randint(0, 9)
@@ -83,6 +89,8 @@ def gen_inputs(rng):
     final = "((" + " + ".join(terms) + ") % 100000)"
     if r.chance(0.3) and top.all("L"):
         final = f"[{final}, {r.choice(top.all('L'))}.len()]"
+    if r.chance(0.15):
+        final = "{ " + final + " }"  # a toplevel block evaluates to its last expression
     inputs.append([final])
     return inputs
 
@@ -141,7 +149,7 @@ class C11(SessimProp):
         return plan
 
     def scenario_incremental(self, case, faulty):
-        srcs = [" ".join(items) if not any(x.startswith(("fun ", "struct ", "enum ", "method ", "test ")) for x in items)
+        srcs = [" ".join(items) if not any(x.startswith(("fun ", "struct ", "enum ", "method ", "test ", "//")) for x in items)
                 else "\n".join(items) for items in case["inputs"]]
         steps = []
         marks = []  # index of the step holding each input's (last) response
